@@ -17,7 +17,20 @@ use std::sync::atomic::{AtomicU64, Ordering};
 
 pub static PROGRESS: AtomicU64 = AtomicU64::new(0);
 
+/// a logger that formats every record and throws the text away: with no logger installed the `log` macros do not evaluate
+/// their arguments at all, so code inside `log::debug!(..)` statements would never run in any check; applications do
+/// install loggers
+struct Sink;
+impl log::Log for Sink {
+    fn enabled(&self, _: &log::Metadata) -> bool { true }
+    fn log(&self, record: &log::Record) { let text = format!("{} {}", record.level(), record.args()); std::hint::black_box(text.len()); }
+    fn flush(&self) {}
+}
+static SINK: Sink = Sink;
+
 fn main() {
+    let _ = log::set_logger(&SINK);
+    log::set_max_level(log::LevelFilter::Trace);
     let args: Vec<String> = std::env::args().collect();
     if args.len() == 4 && args[1] == "--stack-probe" {
         props::c01::stack_probe_child(&args[2], args[3].parse().unwrap_or(65536));
